@@ -17,8 +17,9 @@ Grammar (whitespace = ' ', TAB, NBSP may appear between tokens):
                    parentheses; an integer division whose exact quotient is so close to an integer that float
                    rounding decides the result)
     'ok'           (.., outcomes, tags)  outcomes is a list of acceptable results, each the string 'zde'
-                   (ZeroDivisionError) or a Fraction; there are at most two: integer division of a negative
-                   quotient may floor or truncate, the statement does not say which
+                   (ZeroDivisionError) or a Fraction; one per rounding convention in `modes`: integer division of a
+                   negative quotient may floor or truncate, the statement does not say which (the caller fixes the
+                   convention by probing the implementation once, see c19._int_division_modes)
 """
 from fractions import Fraction
 
@@ -234,7 +235,7 @@ def _tags(toks):
     return tags
 
 
-def classify(s):
+def classify(s, modes=('floor', 'trunc')):
     try:
         node, toks = parse(s)
     except _Malformed as e:
@@ -256,7 +257,7 @@ def classify(s):
     if _has_mixed(node):
         return ('unspecified', 'unparenthesised chain mixing \\ with * or /')
     outcomes = []
-    for mode in ('floor', 'trunc'):
+    for mode in modes:
         try:
             v, _ = _ev(node, mode)
         except _ZDE:
